@@ -73,6 +73,10 @@ def checkLine (oc : Bool) (line : String) : Option (List String × String) :=
   | [("EF" :: _pre), res] =>
     -- Debug formatting with every kind of format option: must not panic (C04); what it renders is not constrained
     some ((if res == ["-"] then [] else ["UNSAT C04", "UNSAT C19"]), "ef_nontrivial")
+  | [("NO" :: prop :: _), res] =>
+    -- scenarios too large for the list-based model (buffers beyond 64 KiB, half-gigabyte inputs): the harness knows the
+    -- stream and hence the frames; only its verdict is relayed
+    some ((if res == ["ok"] then [] else [s!"UNSAT {prop}"]), "no_nontrivial")
   | [("RTE" :: pre), impl, stdr] =>
     -- `read_to_end` through an adapter: call for call what std's adapter over twin readers gives (C08 / C09)
     let tag := if pre.head? == some "chain" then "C08" else "C09"
